@@ -1,5 +1,6 @@
 import Cellml.Iso.Namespace
 import Cellml.Units.Lemmas
+import Cellml.Units.WorklistComplete
 
 /-! Lemmas behind the C16 theorems (lean/Cellml/Props/C16.lean):
     * characters: `prefixName` is injective on (store id, user name); `_STORE_PREFIX` stripping undoes it;
@@ -298,34 +299,14 @@ theorem addBaseUnit_ok {reg : Registry} {st : Store} {name : String} {reg' : Reg
 
 theorem addUnit_ok {reg : Registry} {st : Store} {name : String} {elems : List UnitElem} {reg' : Registry} {st' : Store}
     (h : addUnit reg st name elems = .ok (reg', st')) : Extends reg st name reg' st' := by
-  unfold addUnit at h
-  split at h
-  · cases h
-  · cases h
-  · cases h
-  · rename_i k c md hdm
-    split at h
-    · cases h
-    · split at h
-      · cases h
-      · split at h
-        · cases h
-        · rename_i h1 h2 h3
-          simp only at h
-          split at h
-          · cases h
-          · rename_i hk
-            split at h
-            · simp only [Except.ok.injEq, Prod.mk.injEq] at h
-              exact ⟨by simpa using h1, by simpa using h2,
-                ⟨_, h.1.symm, by intro k' c' hd; cases hd; intro p hp; cases hp⟩, h.2.symm⟩
-            · split at h
-              · cases h
-              · simp only [Except.ok.injEq, Prod.mk.injEq] at h
-                refine ⟨by simpa using h1, by simpa using h2, ⟨_, h.1.symm, ?_⟩, h.2.symm⟩
-                intro k' c' hd
-                cases hd
-                exact keys_of_allKnown (by simpa using hk)
+  obtain ⟨k, c, md, hdm, h1, h2, _, hrefs, _, hr⟩ := Units.addUnit_ok h
+  simp only [Prod.mk.injEq] at hr
+  refine ⟨h1, h2, ⟨_, hr.1, ?_⟩, hr.2⟩
+  intro k' c' hd
+  cases hd
+  have hall : allKnown reg c = true :=
+    Units.defMeaning_allKnown elems k c md hdm (fun e he => List.all_eq_true.mp hrefs e he)
+  exact keys_of_allKnown (Units.allKnown_norm hall)
 
 
 /-! ### process states -/
